@@ -533,3 +533,66 @@ def history_job(args):
     if want_coq and f is None:
         out["coq"] = (coq_data_defs(case["vals"]), coq_case_item(case))
     return out
+
+
+def sampler_job(args):
+    """Real samplers wired as phyclone.run does; after EVERY sampler call: four-view agreement, data conservation
+    (C07) and cached arrays/densities against a rebuild (C06).  Returns counts and the first failure of each kind."""
+    seed, n_points, proposal, outliers, sweeps, particles, subtree_prob, grid = args
+    import random
+
+    import numpy as np
+    from phyclone.run import setup_kernel, setup_samplers
+    from phyclone.tree import FSCRPDistribution, Tree, TreeJointDistribution
+    from phyclone.utils.dev import clear_proposal_dist_caches
+
+    from .trees import make_data, rational_values
+
+    prng = random.Random(seed)
+    ns = prng.randint(1, 2)
+    vals = rational_values(prng, n_points, ns, grid)
+    outlier_prob = 0.1 if outliers else 0.0
+    data = make_data(vals, outlier_prob=outlier_prob)
+    rng = np.random.default_rng(seed)
+    tree_dist = TreeJointDistribution(FSCRPDistribution(1.0))
+    kernel = setup_kernel(outlier_prob, proposal, rng, tree_dist)
+    samplers = setup_samplers(kernel, particles, outlier_prob, 0.5, rng, tree_dist)
+    all_pts = list(range(n_points))
+    out = {"args": list(args), "calls": {}, "c07": None, "c06": None, "exception": None, "shapes": 0}
+    shapes = set()
+    tree = Tree.get_single_node_tree(data)
+
+    def check(name, t):
+        out["calls"][name] = out["calls"].get(name, 0) + 1
+        c07, c06 = check_state(t, data, all_pts, 1e-8 * 10)
+        shapes.add(tree_spec(t) if not c07 else None)
+        if c07 and not out["c07"]:
+            out["c07"] = (name, c07, out["calls"][name])
+        if c06 and not out["c06"]:
+            out["c06"] = (name, c06, out["calls"][name])
+
+    try:
+        check("get_single_node_tree", tree)
+        for i in range(sweeps):
+            clear_proposal_dist_caches()
+            if i < 2:
+                tree = samplers.burnin_sampler.sample_tree(tree)
+                check("UnconditionalSMCSampler", tree)
+            elif rng.random() < subtree_prob and len(tree.nodes) > 0:
+                tree = samplers.subtree_sampler.sample_tree(tree)
+                check("ParticleGibbsSubtreeSampler", tree)
+            else:
+                tree = samplers.tree_sampler.sample_tree(tree)
+                check("ParticleGibbsTreeSampler", tree)
+            tree = samplers.dp_sampler.sample_tree(tree)
+            check("DataPointSampler", tree)
+            tree = samplers.prg_sampler.sample_tree(tree)
+            check("PruneRegraphSampler", tree)
+            tree.relabel_nodes()
+            check("relabel_nodes", tree)
+    except Exception as ex:  # crashes are C19's subject; recorded, not judged here
+        import traceback
+
+        out["exception"] = "%s: %s @ %s" % (type(ex).__name__, ex, traceback.format_exc().strip().splitlines()[-3].strip()[:120])
+    out["shapes"] = len(shapes)
+    return out
